@@ -245,8 +245,8 @@ def cases(tier, seed, ctx=None):
         yield ("stream", [chunks, rng.below(2), rng.below(2)], "stream-backpressure")
 
     # over a real connection, TLS and plain: (a) the application waits for the write-progress notifications of a 3000-byte body
-    # before it closes - they add up to 3000; (b) a 3 MiB answer to a client that reads slowly - the server's thread keeps returning
+    # before it closes - they add up to 3000; (b) a 12 MiB answer to a client that reads slowly through a small window - the server's thread keeps returning
     # to its event loop meanwhile
     for j in range(2 if tier == "quick" else 10):
         yield ("tlsraw", [b"GET /notify HTTP/1.1\r\nHost: h\r\n\r\n", 0, 0, [], 1, 0, 0], "%s-notifications-before-close" % 'tlsraw')
-    yield ("tlsraw", [b"GET /big HTTP/1.1\r\nHost: h\r\n\r\n", 0, 0, [], 1, 0, 2], "%s-slow-reader" % 'tlsraw')
+    yield ("tlsraw", [b"GET /bighuge HTTP/1.1\r\nHost: h\r\n\r\n", 0, 0, [], 1, 0, 6], "%s-slow-reader" % 'tlsraw')
